@@ -725,12 +725,12 @@ impl Harness {
             let m = &self.model;
             if !m.queue.is_empty() {
                 let what = format!("the receiver is parked with no wake-up outstanding although {:?} are buffered", m.queue);
-                self.flag(&format!("C16|quiescence|receiver-stranded-with-items-buffered|{class}"), what);
+                self.flag(&format!("C16|quiescence|receiver-stranded-with-items-buffered"), what);
             } else if m.rx == RxState::Closed {
-                self.flag(&format!("C16|quiescence|receiver-stranded-after-own-close|{class}"), "the receiver called close(), the buffer is empty, yet its task is parked with no wake-up outstanding".into());
+                self.flag(&format!("C16|quiescence|receiver-stranded-after-own-close"), "the receiver called close(), the buffer is empty, yet its task is parked with no wake-up outstanding".into());
             } else if m.live_senders == 0 {
                 let what = format!("every sender is gone (the last one by {}), the buffer is empty, yet the receiver is parked with no wake-up outstanding and will never see None", m.last_exit);
-                self.flag(&format!("C16|quiescence|receiver-not-woken-when-last-sender-gone-by-{}|{class}", m.last_exit), what);
+                self.flag(&format!("C16|quiescence|receiver-not-woken-when-last-sender-gone-by-{}", m.last_exit), what);
             }
         }
     }
@@ -1005,9 +1005,119 @@ fn replay(rep: &mut Reporter, case: &Value) {
     fnd.report(rep);
 }
 
+// ---------------------------------------------------------------------------------------------
+// Cross-check of the harness executor: the same situations as small ordinary async programs on
+// `futures::executor::LocalPool` (a third-party executor: it polls woken tasks only). Not part of
+// the verdict; `mon_mpsc --prop C16 probe-localpool` prints which tasks never finish.
+
+fn probe_localpool() {
+    use std::cell::RefCell;
+
+    use futures::executor::LocalPool;
+    use futures::task::LocalSpawnExt;
+
+    fn run(name: &str, build: impl FnOnce(&futures::executor::LocalSpawner, Rc<RefCell<Vec<String>>>)) {
+        let mut pool = LocalPool::new();
+        let log = Rc::new(RefCell::new(vec![]));
+        build(&pool.spawner(), log.clone());
+        pool.run_until_stalled();
+        eprintln!("{name}: executor stalled; finished tasks = {:?}", log.borrow());
+    }
+
+    run("last sender leaves through Sink::close while the receiver waits (cap 1)", |sp, log| {
+        let (mut tx, mut rx) = mpsc::bounded::<u32>(1);
+        let l = log.clone();
+        sp.spawn_local(async move {
+            let mut got = vec![];
+            while let Some(x) = rx.recv().await {
+                got.push(x);
+            }
+            l.borrow_mut().push(format!("receiver saw None after {got:?}"));
+        })
+        .unwrap();
+        let l = log.clone();
+        sp.spawn_local(async move {
+            tx.send(1).await.unwrap();
+            futures::SinkExt::close(&mut tx).await.unwrap();
+            l.borrow_mut().push("sender closed".into());
+        })
+        .unwrap();
+    });
+
+    run("join!-style task and a plain sender (cap 1, buffer pre-filled)", |sp, log| {
+        let (tx, mut rx) = mpsc::bounded::<u32>(1);
+        tx.try_send(99).unwrap();
+        let (tc, tj) = (tx.clone(), tx);
+        let l = log.clone();
+        sp.spawn_local(async move {
+            tc.send(30).await.unwrap();
+            l.borrow_mut().push("plain sender sent 30".into());
+        })
+        .unwrap();
+        let l = log.clone();
+        sp.spawn_local(async move {
+            let (a, b) = futures::future::join(tj.send(10), tj.send(11)).await;
+            a.unwrap();
+            b.unwrap();
+            l.borrow_mut().push("join task sent 10 and 11".into());
+        })
+        .unwrap();
+        let l = log.clone();
+        sp.spawn_local(async move {
+            let mut got = vec![];
+            while let Some(x) = rx.recv().await {
+                got.push(x);
+            }
+            l.borrow_mut().push(format!("receiver saw None after {got:?}"));
+        })
+        .unwrap();
+    });
+
+    run("select!-style cancelled send and a plain sender (cap 1, buffer pre-filled)", |sp, log| {
+        let (tx, mut rx) = mpsc::bounded::<u32>(1);
+        tx.try_send(99).unwrap();
+        let (ta, tb) = (tx.clone(), tx);
+        let (cancel_tx, cancel_rx) = futures::channel::oneshot::channel::<()>();
+        let l = log.clone();
+        sp.spawn_local(async move {
+            ta.send(10).await.unwrap();
+            l.borrow_mut().push("plain sender sent 10".into());
+        })
+        .unwrap();
+        let l = log.clone();
+        sp.spawn_local(async move {
+            let send = Box::pin(tb.send(20));
+            match futures::future::select(send, cancel_rx).await {
+                futures::future::Either::Left(_) => l.borrow_mut().push("second sender sent 20".into()),
+                futures::future::Either::Right(_) => l.borrow_mut().push("second sender gave up (send future dropped)".into()),
+            }
+        })
+        .unwrap();
+        let l = log.clone();
+        sp.spawn_local(async move {
+            cancel_tx.send(()).unwrap();
+            l.borrow_mut().push("canceller fired".into());
+        })
+        .unwrap();
+        let l = log.clone();
+        sp.spawn_local(async move {
+            let mut got = vec![];
+            while let Some(x) = rx.recv().await {
+                got.push(x);
+            }
+            l.borrow_mut().push(format!("receiver saw None after {got:?}"));
+        })
+        .unwrap();
+    });
+}
+
 fn main() {
     let args = Args::parse();
     if args.prop == "NONE" {
+        return;
+    }
+    if args.rest.iter().any(|a| a == "probe-localpool") {
+        probe_localpool();
         return;
     }
     if args.prop != "C16" {
